@@ -275,7 +275,7 @@ def synthetic(ctx):
 
 
 TYPED = {b'mdhd': 0, b'mvhd': 1, b'tkhd': 2, b'mehd': 3, b'tfdt': 4, b'mfhd': 5, b'trex': 6, b'tfhd': 7, b'trun': 8, b'saio': 9, b'tenc': 10,
-         b'pssh': 11}
+         b'pssh': 11, b'sidx': 12, b'saiz': 13}
 # index into the model's value list -> library attribute (numeric fields only; times are datetimes in the library)
 FIELD_MAP = {
     b'mdhd': {0: 'version', 4: 'timescale', 5: 'duration'},
@@ -289,6 +289,8 @@ FIELD_MAP = {
     b'trun': {1: 'flags', 2: 'sample_count'},
     b'tenc': {4: 'iv_size'},
     b'pssh': {0: 'version'},
+    b'sidx': {0: 'version', 2: 'reference_id', 3: 'timescale', 4: 'earliest_presentation_time', 5: 'first_offset'},
+    b'saiz': {1: 'flags'},
 }
 
 
@@ -301,6 +303,13 @@ def typed_params(typ, payload):
     elif typ == b'saio':
         pos = 4 + (8 if flags & 1 else 0)
         n1 = int.from_bytes(payload[pos:pos + 4], 'big')
+    elif typ == b'sidx':
+        pos = 4 + 8 + (16 if version == 1 else 8) + 2
+        n1 = int.from_bytes(payload[pos:pos + 2], 'big')
+    elif typ == b'saiz':
+        pos = 4 + (8 if flags & 1 else 0)
+        default_size = payload[pos]
+        n1 = int.from_bytes(payload[pos + 1:pos + 5], 'big') if default_size == 0 else 0
     elif typ == b'pssh':
         pos = 20
         if version > 0:
